@@ -56,7 +56,7 @@ class Gen:
         r = self.rng; m = r.randrange(8)
         if m == 0: return self.angle()
         if m == 1: return r.choice([1, -1]) * 10.0 ** r.randint(-12, 3) * r.choice([1.0, r.uniform(1, 9.99)])
-        if m == 2: return r.choice([-0.0, 0.0, 1.0, -2.0, 3.0, 1e-5, 1e-12, 1e8, 123456789.0, 1e-4, 99999999.5, 0.00012345678949])
+        if m == 2: return r.choice([-0.0, 0.0, 1.0, -2.0, 3.0, 1e-5, 1e-12, 999.99999, 1e-4, 0.00012345678949, 123.456785])
         return r.uniform(-math.pi, math.pi)
 
     # ------------------------------------------------------------ gates (wire)
